@@ -129,6 +129,74 @@ def r16_13(prog: Program, rep):
         raise AnalysisError(f"expected >= 4 ref-file lock sites in DiskRefsContainer, found {n}")
 
 
+def _packed_probes(fnode):
+    """Statements of a function body that refuse a name colliding with a PACKED ref: {'up': [...], 'down': [...]}.
+    up   = a loop that walks the ancestors of the name (os.path.dirname) and raises when one is found in packed refs;
+    down = a test / loop with startswith(<name> + b"/") over the packed names that raises."""
+    packedish = {t.id for x in ast.walk(fnode) if isinstance(x, ast.Assign) and isinstance(x.value, ast.Call) and callee_name(x.value) == "get_packed_refs"
+                 for t in x.targets if isinstance(t, ast.Name)}
+
+    def mentions_packed(node):
+        return any((isinstance(y, ast.Name) and y.id in packedish) or (isinstance(y, ast.Call) and callee_name(y) == "get_packed_refs") for y in ast.walk(node))
+
+    slash = any(isinstance(y, ast.BinOp) and isinstance(y.op, ast.Add) and isinstance(y.right, ast.Constant) and y.right.value == b"/" for y in ast.walk(fnode))
+    out = {"up": [], "down": []}
+    for x in ast.walk(fnode):
+        if isinstance(x, (ast.While, ast.For)) and any(isinstance(y, ast.Raise) for y in ast.walk(x)) and mentions_packed(x):
+            if any(isinstance(y, ast.Call) and callee_name(y) == "dirname" for y in ast.walk(x)):
+                out["up"].append(x.test if isinstance(x, ast.While) else x.iter)
+            if slash and any(isinstance(y, ast.Call) and callee_name(y) == "startswith" for y in ast.walk(x)):
+                out["down"].append(x.test if isinstance(x, ast.While) else x.iter)
+        if isinstance(x, ast.If) and slash and any(isinstance(y, ast.Raise) for y in x.body) and mentions_packed(x.test) \
+                and any(isinstance(y, ast.Call) and callee_name(y) == "startswith" for y in ast.walk(x.test)):
+            out["down"].append(x.test)
+    return out
+
+
+def r16_15(prog: Program, rep):
+    """SIBLINGS-AGREE on the file/directory collision test against PACKED refs.  Between loose refs the file system refuses
+    refs/heads/a next to refs/heads/a/b; a packed ref has no file or directory in the way, so every method of DiskRefsContainer that
+    takes a ref file's lock in order to write it probes packed-refs first, upwards (an ancestor of the name is a packed ref) and
+    downwards (a packed ref lives below the name) - in its own body or through a method of the class that does."""
+    from sa.flow import must_pass
+    from sa.cfg import node_calls
+    from sa.common import is_gitfile_call, gitfile_mode
+    m = prog.module("dulwich/refs.py")
+    helpers = {}
+    for q, f in m.funcs.items():
+        if q.startswith("DiskRefsContainer.") and "#" not in q:
+            pr = _packed_probes(f.node)
+            if pr["up"] or pr["down"]:
+                helpers[f.name] = pr
+    n = 0
+    for q, f in sorted(m.funcs.items()):
+        if not q.startswith("DiskRefsContainer.") or "#" in q:
+            continue
+        if not any(isinstance(c, ast.Call) and isinstance(c.func, ast.Attribute) and c.func.attr == "write" for c in ast.walk(f.node)):
+            continue
+        g = cfg_of(prog, f)
+        locks = []
+        for i, nd in g.nodes.items():
+            for c in node_calls(nd):
+                if is_gitfile_call(prog, m, c) and "w" in (gitfile_mode(c) or "") and c.args and isinstance(c.args[0], ast.Name):
+                    if any(isinstance(s_, ast.Assign) and isinstance(s_.targets[0], ast.Name) and s_.targets[0].id == c.args[0].id and isinstance(s_.value, ast.Call)
+                           and callee_name(s_.value) == "refpath" for s_ in ast.walk(f.node)):
+                        locks.append((i, c))
+        own = _packed_probes(f.node)
+        for i, c in locks:
+            for d, what in (("up", "an ancestor of the name that is a packed ref"), ("down", "a packed ref below the name")):
+                through = [j for e in own[d] for j in g.nodes_containing(e)]
+                through += [j for j, nd in g.nodes.items() for cc in node_calls(nd)
+                            if isinstance(cc.func, ast.Attribute) and cc.func.attr in helpers and helpers[cc.func.attr][d] and cc.func.attr != f.name]
+                bad = must_pass(g, [i], through)
+                n += 1
+                rep.ob("R16.15", m.rel, f.qual, f"{what} is looked for before `{c.args[0].id}` is locked for writing", bool(through) and not bad,
+                       "the name is written although it collides, as file versus directory, with a ref that lives only in packed-refs: both refs exist "
+                       "afterwards (git refuses the name; so does dulwich while the other ref is loose - packing changes the outcome)", c.lineno)
+    if n < 6:
+        raise AnalysisError(f"expected >= 6 (writer, direction) pairs in DiskRefsContainer, found {n}")
+
+
 def r16_14(prog: Program, rep):
     """add_if_new of the files backend: the existence test made under the lock looks the RESOLVED name up in packed-refs (the name
     whose file is locked), not the name the caller passed - through HEAD that is the symbolic ref, which is never packed."""
@@ -154,9 +222,11 @@ def run(prog: Program, rep, tier="quick"):
     rep.rule("R16.4", "writable backends override the abstract operations; overrides accept the base signature")
     rep.rule("R16.5", "TABLE-AGREE: check_ref_format tests every rule of git-check-ref-format(1), each on a path to False")
     rep.rule("R16.14", "add_if_new looks the resolved name up in packed-refs")
+    rep.rule("R16.15", "SIBLINGS-AGREE: every ref-file write of the files backend refuses names colliding with a PACKED ref, upwards and downwards")
     rep.rule("R16.13", "SIBLINGS-AGREE: every ref-file write of the files backend first removes empty directories in the way and creates the parent directories")
     r16_13(prog, rep)
     r16_14(prog, rep)
+    r16_15(prog, rep)
     rep.rule("R16.12", "pack_refs never packs a symbolic ref (packing refs changes nothing observable)")
     r16_12(prog, rep)
     rep.rule("R16.11", "add_if_new decides existence through the backend's merged read and the resolved value; namespace views answer in their own names")
@@ -281,6 +351,8 @@ def run(prog: Program, rep, tier="quick"):
     # the file path and the file/directory conflict probe are computed from it, never from the name it was called with
     dm = prog.module(REFS_PY)
     n7 = 0
+    probe_helpers = {f_.name for q_, f_ in dm.funcs.items() if f_.cls == "DiskRefsContainer" and "#" not in q_
+                     and any(_packed_probes(f_.node).values())}
     for q, f in dm.funcs.items():
         if f.cls != "DiskRefsContainer" or "#" in q:
             continue
@@ -290,7 +362,8 @@ def run(prog: Program, rep, tier="quick"):
         first = min(d.lineno for d in defs)
         pnames = [a.arg for a in f.node.args.args[1:2]]
         for c in ast.walk(f.node):
-            if isinstance(c, ast.Call) and getattr(c, "lineno", 0) > first and (callee_name(c) == "refpath" or dotted(c.func) == "os.path.dirname") and c.args:
+            if isinstance(c, ast.Call) and getattr(c, "lineno", 0) > first and (callee_name(c) == "refpath" or dotted(c.func) == "os.path.dirname"
+                                                                                    or (callee_name(c) in probe_helpers and callee_name(c) != f.name)) and c.args:
                 used = {x.id for x in ast.walk(c.args[0]) if isinstance(x, ast.Name)}
                 if not used & (set(pnames) | {"realname"}):
                     continue
